@@ -512,7 +512,15 @@ fn atoms() -> impl Strategy<Value = Vec<Atom>> {
     )
 }
 fn id_re() -> impl Strategy<Value = IdRe> {
-    prop::collection::vec((any::<bool>(), atoms()), 1..3).prop_map(|alts| IdRe { alts })
+    // (an alternative without atoms matches the empty string, i.e. every id that is there - but not an absent one)
+    prop::collection::vec((any::<bool>(), prop_oneof![9 => atoms().boxed(), 1 => Just(vec![]).boxed()]), 1..3).prop_map(|alts| {
+        let r = IdRe { alts };
+        if r.pattern().is_empty() {
+            IdRe { alts: vec![(true, vec![])] }
+        } else {
+            r
+        }
+    })
 }
 pub fn id_crit() -> impl Strategy<Value = IdCrit> {
     prop_oneof![3 => lit_id().prop_map(IdCrit::Lit), 2 => id_re().prop_map(IdCrit::Re)]
